@@ -18,8 +18,67 @@ and `strDecimal64`, which prints the integer part of a negative fraction as `0`.
 Core-only: this file is linked into the `oracle` driver.
 -/
 import OnosVerif.Value.Enc
+import OnosVerif.Generated.Facts
 
 namespace OnosVerif.Value
+
+/-! ### facts regenerated from the Go sources (OnosVerif/Generated/Facts.lean)
+
+The translator emits the decision structure of the v2 and v3 files as strings; they are parsed
+here into small enums, and the twin below is driven by the parsed v2 facts (`C17_fact_*` in
+Props/C17.lean state that the v3 facts are the same and what they currently are). -/
+
+/-- the accumulator lists of `handleLeafList`, and the leaf-list constructors. -/
+inductive LLKind
+  | strs | ints | uints | bools | bytess | digits | floats
+deriving DecidableEq, Repr
+
+def llKindOfList : String → Option LLKind
+  | "stringList" => some .strs | "intList" => some .ints | "uintList" => some .uints
+  | "boolList" => some .bools | "bytesList" => some .bytess | "digitsList" => some .digits
+  | "floatList" => some .floats | _ => none
+
+def llKindOfCtor : String → Option LLKind
+  | "NewLeafListStringTv" => some .strs | "NewLeafListIntTv" => some .ints | "NewLeafListUintTv" => some .uints
+  | "NewLeafListBoolTv" => some .bools | "NewLeafListBytesTv" => some .bytess
+  | "NewLeafListDecimalTv" => some .digits | "NewLeafListFloatTv" => some .floats | _ => none
+
+def parseChain (c : List (String × String × String)) : Option (List (LLKind × LLKind)) :=
+  c.mapM fun b =>
+    match llKindOfList b.1, llKindOfCtor b.2.1 with
+    | some t, some k => some (t, k)
+    | _, _ => none
+
+/-- the if-chain at the end of `handleLeafList`: (list tested for `len > 0`, list constructed). -/
+def leafListChain : Option (List (LLKind × LLKind)) := parseChain Generated.leafListChainV2
+
+/-- `var intWidth / uintWidth / width = configapi.WidthNN`. -/
+def defaultWidth (name : String) : Int := ((Generated.defaultWidthsV2.lookup name).getD 0 : Nat)
+
+inductive CmpOp
+  | gt | ge | lt | le | eq | ne | always
+deriving DecidableEq, Repr
+
+def cmpOpOf : String → Option CmpOp
+  | ">" => some .gt | ">=" => some .ge | "<" => some .lt | "<=" => some .le | "==" => some .eq
+  | "!=" => some .ne | "" => some .always | _ => none
+
+def CmpOp.eval : CmpOp → Int → Int → Bool
+  | .gt, a, b => decide (a > b) | .ge, a, b => decide (a ≥ b) | .lt, a, b => decide (a < b)
+  | .le, a, b => decide (a ≤ b) | .eq, a, b => decide (a = b) | .ne, a, b => decide (a ≠ b)
+  | .always, _, _ => true
+
+/-- the width comparison of a `handleLeafValue` case (`width > WidthThirtyTwo`): operator and constant. -/
+def wideCfg (label : String) : Option (CmpOp × Nat) :=
+  match Generated.leafValueTableV2.lookup label with
+  | some (op, c, _, _) => (cmpOpOf op).map fun o => (o, c)
+  | none => none
+
+/-- is a value of this width written as a JSON string under RFC 7951? -/
+def isWide (label : String) (w : Int) : Bool :=
+  match wideCfg label with
+  | some (o, c) => o.eval w c
+  | none => false
 
 /-! ### gNMI side -/
 
@@ -163,27 +222,37 @@ def llCollect : LLAcc → List Scalar → Except Fail LLAcc
     | .anyNil => .error .llNotSupported
     | .other => .error .llNotSupported
 
+def llNonEmpty (acc : LLAcc) : LLKind → Bool
+  | .strs => acc.strs.length > 0 | .ints => acc.ints.length > 0 | .uints => acc.uints.length > 0
+  | .bools => acc.bools.length > 0 | .bytess => acc.bytess.length > 0 | .digits => acc.digits.length > 0
+  | .floats => acc.floats.length > 0
+
+def llBuild (acc : LLAcc) (width : Int) : LLKind → TV
+  | .strs => newLLString acc.strs | .ints => newLLInt acc.ints width | .uints => newLLUint acc.uints width
+  | .bools => newLLBool acc.bools | .bytess => newLLBytes acc.bytess
+  | .digits => newLLDecimal acc.digits acc.precision | .floats => newLLFloat acc.floats
+
+/-- `if len(a) > 0 { return NewA(…) } else if len(b) > 0 { … } … return error`. -/
+def llChain (acc : LLAcc) (width : Int) : List (LLKind × LLKind) → Except Fail TV
+  | [] => .error .emptyLeafList
+  | (t, k) :: rest => if llNonEmpty acc t then .ok (llBuild acc width k) else llChain acc width rest
+
 /-- `handleLeafList(gnmiLl, typeOpt0)` with `typeOpt0 : uint8`. -/
 def handleLeafList (es : List Scalar) (typeOpt0 : Nat) : Except Fail TV :=
   match llCollect { precision := typeOpt0 } es with
   | .error e => .error e
   | .ok acc =>
-    let width : Int := if typeOpt0 > 0 then (typeOpt0 : Int) else 32
-    if acc.strs.length > 0 then .ok (newLLString acc.strs)
-    else if acc.ints.length > 0 then .ok (newLLInt acc.ints width)
-    else if acc.uints.length > 0 then .ok (newLLUint acc.uints width)
-    else if acc.bools.length > 0 then .ok (newLLBool acc.bools)
-    else if acc.bytess.length > 0 then .ok (newLLBytes acc.bytess)
-    else if acc.digits.length > 0 then .ok (newLLDecimal acc.digits acc.precision)
-    else if acc.floats.length > 0 then .ok (newLLFloat acc.floats)
-    else .error .emptyLeafList
+    let width : Int := if typeOpt0 > 0 then (typeOpt0 : Int) else defaultWidth "width"
+    match leafListChain with
+    | some chain => llChain acc width chain
+    | none => .error .unmodelled
 
 /-- `configapi.Width(modelPath.TypeOpts[0])` when there is a model path with type options,
     `WidthThirtyTwo` otherwise.  `opts` is `modelPath.TypeOpts` (`[]uint64`; a nil model path
     behaves as one without options). -/
-def widthOf (opts : List Nat) : Int :=
+def widthOf (dflt : String) (opts : List Nat) : Int :=
   match opts with
-  | [] => 32
+  | [] => defaultWidth dflt
   | w :: _ => wrapI64 (w : Int)
 
 /-- `GnmiTypedValueToNativeType(gnmiTv, modelPath)`. -/
@@ -191,8 +260,8 @@ def toNative (g : GVal) (opts : List Nat) : Except Fail TV :=
   match g with
   | .scalar (.str s) => .ok (newString s)
   | .scalar (.ascii s) => .ok (newString s)
-  | .scalar (.int i) => .ok (newInt (wrapI64 i) (widthOf opts))
-  | .scalar (.uint n) => .ok (newUint (n % two64) (widthOf opts))
+  | .scalar (.int i) => .ok (newInt (wrapI64 i) (widthOf "intWidth" opts))
+  | .scalar (.uint n) => .ok (newUint (n % two64) (widthOf "uintWidth" opts))
   | .scalar (.bool b) => .ok (newBool b)
   | .scalar (.bytes b) => .ok (newBytes b)
   | .scalar (.dec d p) => .ok (newDecimal d (p % 256))
@@ -427,11 +496,11 @@ def jsonLeaf (rfc : Bool) (nilBytes : Bool) (tv : TV) : Except Fail (Option JTok
   | .empty => .ok none
   | .string => .ok (some (.scalar (.str tv.bytes)))
   | .int =>
-    if rfc && decide (tv.opts.length > 0) && decide (tv.opts.headD 0 > 32) then
+    if rfc && decide (tv.opts.length > 0) && isWide "INT" (tv.opts.headD 0) then
       .ok (some (.scalar (.str (asciiBytes (fmtInt (tvInt tv))))))
     else .ok (some (.scalar (.num (tvInt tv))))
   | .uint =>
-    if rfc && decide (tv.opts.length > 0) && decide (tv.opts.headD 0 > 32) then
+    if rfc && decide (tv.opts.length > 0) && isWide "UINT" (tv.opts.headD 0) then
       .ok (some (.scalar (.str (asciiBytes (fmtNat (tvUint tv))))))
     else .ok (some (.scalar (.num (tvUint tv))))
   | .decimal =>
@@ -453,13 +522,13 @@ def jsonLeaf (rfc : Bool) (nilBytes : Bool) (tv : TV) : Except Fail (Option JTok
     match tvLLInt tv with
     | .error e => .error e
     | .ok (xs, w) =>
-      if rfc && decide (w > 32) then .ok (some (.arr (xs.map fun x => .str (asciiBytes (fmtInt x)))))
+      if rfc && isWide "LEAFLIST_INT" w then .ok (some (.arr (xs.map fun x => .str (asciiBytes (fmtInt x)))))
       else .ok (some (.arr (xs.map .num)))
   | .llUint =>
     match tvLLUint tv with
     | .error e => .error e
     | .ok (xs, w) =>
-      if rfc && decide (w > 32) then .ok (some (.arr (xs.map fun x => .str (asciiBytes (fmtNat x)))))
+      if rfc && isWide "LEAFLIST_UINT" w then .ok (some (.arr (xs.map fun x => .str (asciiBytes (fmtNat x)))))
       else .ok (some (.arr (xs.map fun x => .num (x : Nat))))
   | .llBool => .ok (some (.arr ((tvLLBool tv).map .bool)))
   | .llDecimal => mapOk (fun _ => some .floatText) (tvLLDecimal tv)
